@@ -3,6 +3,8 @@
 // heap allocation is filled with 0xAA, which is an INVALID symbolic handle, so any arithmetic, comparison or output on never-written
 // scalars is reported as an uninitialised read; never-written index/flag arrays hold 0xAA.. garbage and lead to sanitizer errors.
 #include "hx_amgcl.hpp"
+#include <amgcl/value_type/static_matrix.hpp>
+#include <amgcl/adapter/block_matrix.hpp>
 #include <amgcl/make_solver.hpp>
 #include <amgcl/amg.hpp>
 #include <amgcl/coarsening/aggregation.hpp>
@@ -43,10 +45,13 @@ struct Input { std::string name; SCrs A; };
 static SCrs from_dense(const std::vector<std::vector<double>> &d, bool symbolic, const std::string &pre) { SCrs A; A.n=A.m=d.size(); A.ptr.push_back(0); for (int i=0;i<A.n;++i) { for (int j=0;j<A.n;++j) if (d[i][j]!=0) { A.col.push_back(j); A.val.push_back(symbolic ? var(pre+"_"+std::to_string(i)+"_"+std::to_string(j),d[i][j]) : scalar(d[i][j])); } A.ptr.push_back(A.col.size()); } return A; }
 static std::vector<Input> inputs(bool symbolic) { std::vector<Input> v; auto add=[&](const std::string &n, const std::vector<std::vector<double>> &d) { v.push_back({n,from_dense(d,symbolic,"a")}); };
     add("1x1",{{3}}); add("diag3",{{2,0,0},{0,3,0},{0,0,4}}); add("disconnected",{{2,-1,0,0},{-1,2,0,0},{0,0,3,-1},{0,0,-1,3}}); add("positive_offdiag_row",{{2,1,0},{-1,2,-1},{0,-1,2}}); add("all_positive_offdiag",{{3,1,1},{1,3,1},{1,1,3}}); add("tridiag4",{{2,-1,0,0},{-1,2,-1,0},{0,-1,2,-1},{0,0,-1,2}}); add("isolated_node",{{2,-1,0},{-1,2,0},{0,0,5}}); add("2x2",{{2,-1},{-1,2}});
+    // numerically non-symmetric strength graph (a_ji strong, a_ij weak): a later seed absorbs an earlier aggregate completely -> the "aggregates vanished, renumber" branch
+    { double w=-1.0/64; add("nonsym_strength3",{{2,-1,w},{-1,2,w},{-1,-1,2}}); add("nonsym_strength6",{{2,-1,w,0,0,0},{-1,2,w,0,0,0},{-1,-1,2,w,0,0},{0,0,w,2,-1,w},{0,0,0,-1,2,w},{0,0,0,-1,-1,2}}); }
     return v; }
+static void __attribute__((noinline)) scrub_stack();
 template<class MS, class SetP> static void twice_case(const std::string &nm, const Input &in, SetP setp) { hx::CaseOptions coo; coo.max_paths=16; coo.max_depth=160; hx::run_case(nm+"/"+in.name, [&]() { const SCrs &A=in.A; int n=A.n; typename MS::params prm; setp(prm); Vec f=hx::sym_vector("f",n), x0=hx::sym_vector("x",n,0.25);
     size_t ev0=poison_events();
-    auto once=[&](bool &threw, std::string &what) { Vec out; try { MS s(std::tie(n,A.ptr,A.col,A.val),prm); NV F=hx::to_numa(f), X=hx::to_numa(x0); hx::cuts(true); auto r=s(F,X); hx::cuts(false); out=hx::to_vec(X); out.push_back(std::get<1>(r)); out.push_back(scalar((double)std::get<0>(r))); } catch (const std::runtime_error &e) { hx::cuts(false); threw=true; what=e.what(); } catch (const amgcl::error::empty_level&) { hx::cuts(false); threw=true; what="empty_level"; } return out; };
+    auto once=[&](bool &threw, std::string &what) { Vec out; scrub_stack(); try { MS s(std::tie(n,A.ptr,A.col,A.val),prm); NV F=hx::to_numa(f), X=hx::to_numa(x0); hx::cuts(true); auto r=s(F,X); hx::cuts(false); out=hx::to_vec(X); out.push_back(std::get<1>(r)); out.push_back(scalar((double)std::get<0>(r))); } catch (const std::runtime_error &e) { hx::cuts(false); threw=true; what=e.what(); } catch (const amgcl::error::empty_level&) { hx::cuts(false); threw=true; what="empty_level"; } return out; };
     bool t1=false, t2=false; std::string w1, w2; Vec a=once(t1,w1); // unrelated heap traffic between the two constructions
     { std::vector<std::vector<char>> junk; for (int k=0;k<7;++k) junk.emplace_back(37+k*101,(char)k); }
     Vec b=once(t2,w2);
@@ -63,6 +68,16 @@ static void zero_copy_case(const Input &in) { hx::run_case("zero_copy_amg/"+in.n
 // AUXILIARY, not a solver verdict: deep runs of the Krylov solvers with tiny restart / augmentation / shadow-space parameters, on concrete
 // numbers, executed only in the concrete (validation) pass of both builds under AddressSanitizer.  They wrap every internal ring buffer and
 // restart several times -- iteration depths the symbolic engine cannot reach (3 GB per case at 3 iterations); the sanitizer is the only oracle.
+// uninitialised STACK memory: the frames below the call are scrubbed with the 0xAA pattern first (an invalid scalar handle in the symbolic build), so a local
+// that is read before it is written shows up as an uninitialised read exactly like a heap cell does
+static void __attribute__((noinline)) scrub_stack() { volatile unsigned char buf[1<<16]; for (size_t i=0;i<sizeof(buf);++i) buf[i]=0xAA; }
+// block adapter on a scalar matrix whose 2x2 blocks are structurally incomplete (also the FIRST block of a block row): every block value is written before it is read
+static void block_adapter_case(const std::string &nm, const std::vector<std::vector<double>> &d) { hx::run_case("block_adapter/"+nm, [&]() { SCrs A=from_dense(d,false,"a"); int n=A.n; typedef amgcl::static_matrix<scalar,2,2> B2; size_t ev0=poison_events();
+    auto tup=std::tie(n,A.ptr,A.col,A.val); scrub_stack(); be::crs<B2,ptrdiff_t,ptrdiff_t> Bm(amgcl::adapter::block_matrix<B2>(tup));
+    std::vector<std::vector<scalar>> D(n,Vec(n,scalar(0))); for (size_t I=0;I<Bm.nrows;++I) for (ptrdiff_t k=Bm.ptr[I];k<Bm.ptr[I+1];++k) for (int r=0;r<2;++r) for (int c=0;c<2;++c) D[I*2+r][Bm.col[k]*2+c]=Bm.val[k](r,c);
+    hx::require("block adapter: no scalar was read from never-written memory (heap or scrubbed stack)", poison_events()==ev0); bool clean=true; auto Ad=A.dense(); Vec g, r; for (int i=0;i<n;++i) for (int j=0;j<n;++j) { clean=clean&&hx::independent_of(D[i][j],"poison"); g.push_back(D[i][j]); r.push_back(Ad[i][j]); }
+    hx::require("block adapter: no block value depends on uninitialised memory", clean); if (clean) hx::prove_eq_vec("block adapter: block values = the scalar entries, missing entries are exactly zero", g, r); }); }
+
 template<class S, class SetP> static void deep_run_case(const std::string &nm, SetP setp, int repeats) { hx::run_case("deep-run(concrete)/"+nm, [&]() {
 #ifndef HX_DBL
     hx::count("deep concrete runs are executed by the double build in the validation pass only"); return;
@@ -77,7 +92,7 @@ int main(int argc, char **argv) {
     hx::parse_args(argc,argv); bool T=hx::thorough();
     hx::encodes("amg<B,C,R> construction + make_solver solve for C in {aggregation, smoothed_aggregation, smoothed_aggr_emin, ruge_stuben} x R in {spai0, damped_jacobi, gauss_seidel, ilu0, ilut, chebyshev}, solvers cg/bicgstab/gmres, as_preconditioner, skyline_lu, adapter::zero_copy -- on the degenerate inputs the property lists");
     hx::assume_note("memory safety on each solver-decided path is observed by AddressSanitizer/UBSan on the running harness (the sanitizer is the oracle per path, the solver enumerates the feasible paths); prior heap content is modelled by one fill pattern (0xAA, an invalid scalar handle) plus heap traffic between the two constructions");
-    hx::assume_note("inputs: 1x1, diagonal, disconnected, rows whose only off-diagonals are positive, isolated node, n < coarse_enough, max_levels = 1; both with concrete values and with ALL values symbolic (then every strength / pivot decision is forked)");
+    hx::assume_note("inputs: 1x1, diagonal, disconnected, rows whose only off-diagonals are positive, isolated node, numerically non-symmetric strength graphs (vanishing aggregates), n < coarse_enough, max_levels = 1; both with concrete values and with ALL values symbolic (then every strength / pivot decision is forked)");
     hx::assume_note("a structurally missing diagonal entry is not among the valid inputs of the property and is not exercised");
     for (int symbolic=0;symbolic<2;++symbolic) for (auto &in : inputs(symbolic)) { std::string tag=symbolic?"sym/":"num/"; Input I=in; I.name=tag+in.name;
         auto ce=[](unsigned c, unsigned ml=1000){ return [=](auto &p){ p.precond.coarse_enough=c; if (ml<100) p.precond.max_levels=ml; set_it(p.solver); }; };
@@ -93,6 +108,7 @@ int main(int argc, char **argv) {
             twice_case<amgcl::make_solver<amgcl::amg<BE,co::ruge_stuben,rx::spai0>,sv::preonly<BE>>>("rs+spai0/ml1",I,ce(1,1)); twice_case<amgcl::make_solver<amgcl::amg<BE,co::smoothed_aggregation,rx::spai0>,sv::preonly<BE>>>("sa+spai0/ce3000",I,ce(3000));
         }
         lu_case(I); zero_copy_case(I); }
+    block_adapter_case("first_block_incomplete",{{2,0,-1,0},{0,3,0,0},{-1,0,2,-1},{0,0,-1,2}}); block_adapter_case("all_incomplete6",{{2,0,0,-1,0,0},{0,3,0,0,0,0},{0,-1,2,0,0,-1},{0,0,0,3,0,0},{0,0,-1,0,2,0},{0,0,0,0,0,3}});
     deep_run_case<sv::lgmres<BE>>("lgmres/M1K1",[](auto &p){ p.M=1; p.K=1; },1); deep_run_case<sv::lgmres<BE>>("lgmres/M2K2-noreset-x8",[](auto &p){ p.M=2; p.K=2; p.always_reset=false; p.maxiter=3; },8);
     deep_run_case<sv::gmres<BE>>("gmres/M1",[](auto &p){ p.M=1; },2); deep_run_case<sv::gmres<BE>>("gmres/M3",[](auto &p){ p.M=3; },2); deep_run_case<sv::fgmres<BE>>("fgmres/M2",[](auto &p){ p.M=2; },2);
     deep_run_case<sv::idrs<BE>>("idrs/s1",[](auto &p){ p.s=1; },2); deep_run_case<sv::idrs<BE>>("idrs/s3",[](auto &p){ p.s=3; },2); deep_run_case<sv::bicgstabl<BE>>("bicgstabl/L1",[](auto &p){ p.L=1; },2); deep_run_case<sv::bicgstabl<BE>>("bicgstabl/L3",[](auto &p){ p.L=3; },2);
